@@ -1,3 +1,5 @@
+(* HISTORY (not built, not in _CoqProject): written before fix e33be43 was committed to /repo; its content
+   is now Model.filter_step / Proofs.latch_delivers_exactly_genuine. *)
 (* Repaired model for finding ssrc-latch-unauthenticated (not referenced by Props; for the
    coordinator to switch to after a fix in /repo).  The only change: the remote SSRC is recorded
    after decodeRTP has succeeded, i.e. from an authenticated packet. *)
